@@ -540,23 +540,64 @@ func c5Levels(c *Ctx, impls []*types.Named) {
 			var seed ssa.Value
 			okUpd := true
 			var lo *ssa.Call
-			for i, e := range acc.Edges {
-				pred := acc.Block().Preds[i]
-				if Strip(e) == ssa.Value(acc) {
-					continue
+			// the accumulator may be several phis (loop header and the join after the comparison): their closure is one value
+			closure := map[*ssa.Phi]bool{}
+			var walkPhi func(p *ssa.Phi)
+			var collect func(p *ssa.Phi)
+			collect = func(p *ssa.Phi) {
+				if closure[p] {
+					return
 				}
-				if call, isCall := Strip(e).(*ssa.Call); isCall && IsCallTo(call, "go.uber.org/zap/zapcore.LevelOf") {
-					lo = call
-					for _, cond := range edgeConds(pred) {
-						s := AtomString(cond)
-						if s != Desc(call)+" < "+Desc(acc) && s != Desc(acc)+" > "+Desc(call) {
-							okUpd = false
-						}
+				closure[p] = true
+				for _, e := range p.Edges {
+					if q, isPhi := Strip(e).(*ssa.Phi); isPhi {
+						collect(q)
 					}
-					continue
 				}
-				seed = e
 			}
+			collect(acc)
+			walked := map[*ssa.Phi]bool{}
+			walkPhi = func(p *ssa.Phi) {
+				if walked[p] {
+					return
+				}
+				walked[p] = true
+				for i, e := range p.Edges {
+					pred := p.Block().Preds[i]
+					se := Strip(e)
+					if q, isPhi := se.(*ssa.Phi); isPhi {
+						walkPhi(q)
+						continue
+					}
+					if call, isCall := se.(*ssa.Call); isCall && IsCallTo(call, "go.uber.org/zap/zapcore.LevelOf") {
+						lo = call
+						for _, cond := range edgeConds(pred) {
+							b, isCmp := cond.Cond.(*ssa.BinOp)
+							okc := false
+							if isCmp {
+								x, y := Strip(b.X), Strip(b.Y)
+								xp, _ := x.(*ssa.Phi)
+								yp, _ := y.(*ssa.Phi)
+								switch {
+								case x == ssa.Value(call) && yp != nil && closure[yp]:
+									okc = (b.Op == token.LSS && cond.Pol) || (b.Op == token.GEQ && !cond.Pol)
+								case y == ssa.Value(call) && xp != nil && closure[xp]:
+									okc = (b.Op == token.GTR && cond.Pol) || (b.Op == token.LEQ && !cond.Pol)
+								}
+							}
+							if !okc {
+								okUpd = false
+							}
+						}
+						continue
+					}
+					if seed != nil && seed != e {
+						okUpd = false
+					}
+					seed = e
+				}
+			}
+			walkPhi(acc)
 			sv, isC := ConstInt(seed)
 			c.Check(isC && sv == inv, "R5.3", name, "seed", acc.Pos(), "the tee's minimum is seeded with %s (must be InvalidLevel=%d, the value LevelOf reports for a branch with nothing enabled; a valid level as seed is reported for an all-disabled tee)", Desc(seed), inv)
 			visits := false
